@@ -84,6 +84,10 @@ CATALOGUE = {
     'on-key': b'ON KEY(A%) GOSUB 0',
     'palette': b'PALETTE A%,B%',
     'noise': b'NOISE A%,B%,C%',
+    # statements that fail half-way through (no cassette is attached)
+    'chain-fails': b'CHAIN "CAS1:X",A%',
+    'chain-merge-fails': b'CHAIN MERGE "CAS1:X",A%,ALL',
+    'load-fails': b'LOAD "CAS1:X"',
     # memory between the FIELD buffers, string operand of a logical operator, pointer strings in PLAY/DRAW
     'peek-field-gap': b'R%=PEEK(3900+(A% AND 511))',
     'poke-field-gap': b'POKE 3900+(A% AND 511),B% AND 255',
@@ -140,6 +144,8 @@ def body(h):
     if h.params['name'] not in ('clear', 'clear3'):
         post = h.call(impl.execute, b'R%=FRE("")')
         h.require('next-line-with-a-collection-runs', post[0] == 'ok', post)
+        # ... and the collector must not have been left switched off by a statement that failed half-way
+        h.require('collector-still-enabled', impl.memory._allow_collect is True)
     err = impl.interpreter.error_num
     return [res[0], res[1] if res[0] != 'ok' else None]
 
